@@ -29,6 +29,8 @@ def gen_case(rng):
     cfg = dict(kind=kind, obj=obj, executions=rng.choice([1, 1, 2, 3]), ntrials=rng.randint(2, 4), epochs=rng.randint(1, 5), seed=rng.randint(1, 10 ** 6), cseed=rng.randint(0, 2 ** 31))
     if kind == "hyperband":
         cfg.update(max_epochs=rng.choice([3, 4]), factor=2, executions=rng.choice([1, 2]))
+    # the objective is written into the epoch logs by a user callback passed to search(callbacks=[...]) instead of coming from fit itself
+    cfg["via_callback"] = rng.random() < 0.4
     return cfg
 
 
@@ -36,6 +38,9 @@ def curve_values(cfg, trial_idx, execution, epoch):
     """deterministic small-integer metric values with many ties and plateaus"""
     r = random.Random(cfg["cseed"] * 1000003 + trial_idx * 977 + execution * 31 + epoch)
     return dict(a=float(r.randint(0, 3)), b=float(r.randint(0, 3)))
+
+
+INJECT = {}      # shared with the (deep-copied) user callback: the metric values of the epoch that is ending
 
 
 def objective_of(cfg, logs):
@@ -74,9 +79,12 @@ def run_case(cfg):
                 cl.on_epoch_begin(e)
                 logs = curve_values(cfg, tidx, ex, e)
                 model.set_weights([np.array([[stamp(tidx, ex, e)]], dtype="float32")])
+                vals = dict(logs)
+                if cfg.get("via_callback"):
+                    INJECT.clear(); INJECT.update(vals); logs = {"loss": 0.0}
                 cl.on_epoch_end(e, logs)
-                rec["epochs"].append((e, objective_of(cfg, logs)))
-                for k, v in logs.items():
+                rec["epochs"].append((e, objective_of(cfg, vals)))
+                for k, v in vals.items():
                     hist.setdefault(k, []).append(v)
             cl.on_train_end()
             log.append((tid, ex, rec))
@@ -102,8 +110,15 @@ def run_case(cfg):
             state["order"].append(trial.trial_id)
         return orig_run(trial, *a, **kw)
     t.run_trial = run_trial
+    class Inject(keras.callbacks.Callback):
+        def on_epoch_end(self, epoch, logs=None):
+            if logs is not None:
+                logs.update(INJECT)
     try:
-        t.search(epochs=cfg["epochs"], verbose=0)
+        if cfg.get("via_callback"):
+            t.search(epochs=cfg["epochs"], verbose=0, callbacks=[Inject()])
+        else:
+            t.search(epochs=cfg["epochs"], verbose=0)
         out = dict(trials=[], log=[(tid, ex, rec) for tid, ex, rec in log])
         for tid in state["order"]:
             tr = t.oracle.trials[tid]
